@@ -219,11 +219,12 @@ func (g *gen) complexExpr() cexpr {
 		g.dep(id)
 		g.n++
 		name := "gid" + fmt.Sprint(g.n)
-		insts := []string{name + "[int, string](x, \"a\")", name + "(x, \"a\")", name + "[int](x, 1.5)", name + "[int, []int](x, nil)"}
-		// recorded finding: astutil.CopyExpr writes into the index list of the expression it copies and
-		// leaves a nil there when an index is a function type; excluded by not instantiating with one
+		insts := []string{name + "(x, \"a\")", name + "[int](x, 1.5)"}
+		// recorded finding: astutil.CopyExpr writes into the index list of the expression it copies
+		// (fresh identifiers without type information; nil when an index is a function type); excluded
+		// by not instantiating with an explicit list of several type arguments
 		if g.include("copyexpr-indexlist-nil-index") {
-			insts = append(insts, name+"[int, func()](x, nil)", name+"[int, func()](x, nil)", name+"[int, interface{ M() }](x, nil)")
+			insts = append(insts, name+"[int, string](x, \"a\")", name+"[int, []int](x, nil)", name+"[int, func()](x, nil)", name+"[int, func()](x, nil)", name+"[int, interface{ M() }](x, nil)")
 		}
 		return cexpr{E: pick(g, "ginst", insts...), T: tInt, Params: []string{"x int"}, Form: "generic_call"}
 	case 11: // method value / expression call
@@ -398,7 +399,7 @@ func (g *gen) chainFunc() {
 		}
 		body := func() string { return pick(g, "branch", branchBodies...) }
 		var sb strings.Builder
-		switch g.intn(0, 9, "chainform") {
+		switch g.intn(0, 11, "chainform") {
 		case 0, 1, 2: // if / else if
 			g.feat("chain_if_else_if")
 			for i := 0; i < n; i++ {
@@ -473,12 +474,22 @@ func (g *gen) chainFunc() {
 		case 8: // negated / De Morgan material
 			g.feat("chain_negated")
 			sb.WriteString("if !(" + eq(0) + pick(g, "demorgan", " || ", " && ") + "!(" + eq(1) + ")) {\n\t\tn++\n\t}")
+		case 10, 11: // the expression as a map key in the prefix-trimming idiom (three occurrences compared syntactically)
+			g.feat("chain_trim_prefix_idiom")
+			key := func() string {
+				if ce.Alt != nil && g.chance(30, "usealt") {
+					return ce.Alt.E
+				}
+				return ce.E
+			}
+			fn := pick(g, "prefixfn", [2]string{"HasPrefix", "TrimPrefix"}, [2]string{"HasSuffix", "TrimSuffix"}, [2]string{"HasPrefix", "TrimPrefix"}, [2]string{"Contains", "TrimPrefix"})
+			sb.WriteString("if strings." + fn[0] + "(ms[" + key() + "], \"x\") {\n\t\tms[" + key() + "] = " + pick(g, "trimform", "strings."+fn[1]+"(ms["+key()+"], \"x\")", "ms["+key()+"][len(\"x\"):]", "ms["+key()+"][1:]") + "\n\t}")
 		default: // loop with conditional break on the expression
 			g.feat("chain_loop_break")
 			sb.WriteString("for {\n\t\tif " + eq(0) + " {\n\t\t\tbreak\n\t\t}\n\t\tn++\n\t}")
 		}
 		name := g.styled(g.flip("expfn"))
-		params := append(append([]string{}, ce.Params...), vparams...)
+		params := append(append([]string{"ms map[any]string"}, ce.Params...), vparams...)
 		return g.doc(name) + "func " + name + "(" + strings.Join(params, ", ") + ") int {\n\tn := 0\n\t" + sb.String() + "\n\treturn n\n}"
 	})
 }
@@ -671,7 +682,58 @@ func (g *gen) exoticCall(d int) string {
 
 // stmt draws one statement for the body of a general function.
 func (g *gen) stmt(d int) string {
-	switch g.intn(0, 24, "stmt") {
+	switch g.intn(0, 28, "stmt") {
+	case 25:
+		// select with every form of communication clause
+		g.feat("select_comm_forms")
+		n := g.fresh("c")
+		clauses := []string{"case <-" + n + ":", "case (<-" + n + "):", "case ((<-(" + n + "))):", "case x := <-" + n + ":\n\t\t_ = x", "case x, ok := (<-" + n + "):\n\t\t_, _ = x, ok",
+			"case arr[0], *new(bool) = <-" + n + ":", "case st.f, _ = <-" + n + ":", "case " + n + " <- 1:", "case (" + n + ") <- len(arr):", "case _ = <-" + n + ":", "case *new(int) = <-" + n + ":", "case mp[\"k\"] = <-" + n + ":", "case _, _ = <-" + n + ":"}
+		var cs []string
+		for i, k := 0, g.intn(1, 4, "nclauses"); i < k; i++ {
+			cs = append(cs, pick(g, "commclause", clauses...))
+		}
+		if g.flip("seldefault") {
+			cs = append(cs, "default:")
+		}
+		return "{\n\t\t" + n + " := make(chan int, 1)\n\t\tvar arr [2]int\n\t\tvar st struct{ f int }\n\t\tmp := map[string]int{}\n\t\t_, _, _ = arr, st, mp\n\t\tselect {\n\t\t" + strings.Join(cs, "\n\t\t") + "\n\t\t}\n\t}"
+	case 26:
+		// assignment targets of every form
+		g.feat("assign_target_forms")
+		targets := []string{"(x)", "*p", "(*p)", "arr[0]", "(arr)[1]", "st.f", "(st).f", "(*ps).f", "ps.f", "mp[\"k\"]", "(mp)[\"j\"]", "*new(int)", "map[int]int{}[0]", "sl[len(sl)-1]", "*&x", "(*(&st)).f", "_"}
+		var lines []string
+		for i, k := 0, g.intn(1, 4, "nassign"); i < k; i++ {
+			t1, t2 := pick(g, "target", targets...), pick(g, "target", targets...)
+			switch g.intn(0, 5, "assignform") {
+			case 0:
+				lines = append(lines, t1+" = "+g.arg(tInt, 1))
+			case 1:
+				lines = append(lines, t1+", "+t2+" = "+g.arg(tInt, 1)+", "+g.arg(tInt, 1))
+			case 2:
+				if t1 != "_" {
+					lines = append(lines, t1+pick(g, "incdec", "++", "--", " += 2", " <<= 1", " |= 1", " %= 3"))
+				}
+			case 3:
+				lines = append(lines, "for "+t1+", "+t2+" = range sl {\n\t\t}")
+			case 4:
+				lines = append(lines, "for "+t1+" = range 3 {\n\t\t}")
+			default:
+				lines = append(lines, t1+", "+t2+" = "+t2+", "+t1)
+			}
+		}
+		for i, l := range lines {
+			if strings.HasPrefix(l, "_, _ = _") || strings.Contains(l, "= _") || strings.HasSuffix(l, ", _") && strings.Contains(l, "= ") && strings.Contains(l[strings.Index(l, "= "):], "_") {
+				lines[i] = "x = 1"
+			}
+		}
+		return "{\n\t\tvar x int\n\t\tp, ps, sl := &x, &struct{ f int }{}, []int{1}\n\t\tvar arr [2]int\n\t\tvar st struct{ f int }\n\t\tmp := map[string]int{}\n\t\t_, _, _, _, _, _ = p, ps, sl, arr, st, mp\n\t\t" + strings.Join(lines, "\n\t\t") + "\n\t}"
+	case 27:
+		// promoted fields and methods through named pointer types and several levels of embedding
+		g.feat("promoted_selectors")
+		n := g.fresh("")
+		return "{\n\t\ttype inner" + n + " struct{ f int }\n\t\ttype mid" + n + " struct{ *inner" + n + " }\n\t\ttype outer" + n + " struct {\n\t\t\tmid" + n + "\n\t\t\tsync.Mutex\n\t\t}\n\t\ttype ptr" + n + " *outer" + n + "\n\t\ttype alias" + n + " = *mid" + n + "\n\t\tvar o outer" + n + "\n\t\tvar p ptr" + n + " = &o\n\t\tvar a alias" + n + " = &o.mid" + n + "\n\t\t_, _ = p, a\n\t\t_ = " +
+			pick(g, "promoted", "o.f", "p.f", "a.f", "(*p).mid"+n+".f", "o.inner"+n+".f", "p.inner"+n, "a.inner"+n+".f", "(&o).f", "o.mid"+n+".inner"+n+".f") + "\n\t\t" +
+			pick(g, "promotedmeth", "o.Lock()", "(*p).Lock()", "_ = o.Unlock", "_ = (*outer"+n+").Lock", "_ = p.Mutex.TryLock", "defer o.Unlock()", "_ = (&p.Mutex).Lock") + "\n\t}"
 	case 0, 1, 2:
 		return g.localVar(d)
 	case 3:
